@@ -39,3 +39,116 @@ def inputDependsOnInput (c : ECfg V) (ins : List Node) : Bool :=
   ins.any fun i => ins.any fun j => i != j && (needed c [] [i]).contains j
 
 end VM
+
+namespace VM
+open TM
+variable {V : Type} [PyVal V]
+
+/-! ### restriction to a dependency-closed set keeps the values (C19, and the value part of C12) -/
+
+/-- the table restricted to the nodes satisfying `S` -/
+def restrict (c : ECfg V) (S : Node → Bool) : ECfg V := { c with nodes := c.nodes.filter S }
+
+/-- `S` is closed under in-table dependencies (decidable, so a driver can check it on every run) -/
+def isClosedB (c : ECfg V) (S : Node → Bool) : Bool :=
+  c.nodes.all fun n => !S n || (c.recOf n).refs.all fun r => !c.nodes.contains r.src || S r.src
+
+def Agree (c : ECfg V) (S : Node → Bool) (σ τ : Results V) : Prop :=
+  ∀ x, (x ∉ c.nodes ∨ S x = true) → σ x = τ x
+
+theorem outcome_restrict (c : ECfg V) (S : Node → Bool) (ρ : Results V) (n : Node) :
+    outcome (restrict c S) ρ n = outcome c ρ n := rfl
+
+theorem denote_restrict (c : ECfg V) (S : Node → Bool) (hcl : isClosedB c S = true) :
+    ∀ (rest : List Node), (∀ n ∈ rest, n ∈ c.nodes) → ∀ (σ τ : Results V), Agree c S σ τ →
+      Agree c S (denote (restrict c S) (rest.filter S) σ) (denote c rest τ) := by
+  intro rest
+  induction rest with
+  | nil => intro _ σ τ h; simpa [denote] using h
+  | cons n rest ih =>
+    intro hmem σ τ hag
+    have hn : n ∈ c.nodes := hmem n (by simp)
+    have hrest : ∀ m ∈ rest, m ∈ c.nodes := fun m hm => hmem m (by simp [hm])
+    cases hS : S n with
+    | false =>
+      simp only [List.filter_cons, hS, Bool.false_eq_true, if_false, denote]
+      -- only the full table runs `n`; `n` is outside the agreement domain
+      have hag' : ∀ v, Agree c S σ (τ.set n v) := by
+        intro v x hx
+        have hxn : x ≠ n := by
+          rintro rfl
+          rcases hx with h | h
+          · exact h hn
+          · rw [hS] at h; cases h
+        rw [set_ne hxn]; exact hag x hx
+      cases outcome c τ n with
+      | some v => exact ih hrest σ _ (hag' v)
+      | none => exact ih hrest σ τ hag
+    | true =>
+      simp only [List.filter_cons, hS, if_true, denote]
+      -- both run `n` and read the same values: its sources are outside the table or inside `S`
+      have hsrc : ∀ r ∈ (c.recOf n).refs, σ r.src = τ r.src := by
+        intro r hr
+        apply hag
+        by_cases hin : r.src ∈ c.nodes
+        · right
+          have := List.all_eq_true.mp hcl n hn
+          simp only [hS, Bool.not_true, Bool.false_or, List.all_eq_true] at this
+          have h2 := this r hr
+          simp only [Bool.or_eq_true, Bool.not_eq_true', List.contains_eq_mem, decide_eq_false_iff_not] at h2
+          rcases h2 with h2 | h2
+          · exact absurd hin h2
+          · exact h2
+        · exact Or.inl hin
+      have hout : outcome (restrict c S) σ n = outcome c τ n := by
+        rw [outcome_restrict]; exact outcome_congr c hsrc
+      rw [hout]
+      cases outcome c τ n with
+      | some v =>
+        apply ih hrest
+        intro x hx
+        by_cases hxn : x = n
+        · subst hxn; rw [set_eq, set_eq]
+        · rw [set_ne hxn, set_ne hxn]; exact hag x hx
+      | none => exact ih hrest σ τ hag
+
+/-- a dependency-closed restriction computes, on the kept nodes (and outside the table), exactly
+    what the whole table computes -/
+theorem den_restrict (c : ECfg V) (S : Node → Bool) (hcl : isClosedB c S = true) (x : Node)
+    (hx : x ∉ c.nodes ∨ S x = true) : den (restrict c S) x = den c x := by
+  have := denote_restrict c S hcl c.nodes (fun _ h => h) c.init c.init (fun _ _ => rfl) x hx
+  simpa [den, restrict] using this
+
+theorem neededPass_mono (c : ECfg V) (ins : List Node) : ∀ (l acc : List Node) (x : Node),
+    x ∈ acc → x ∈ neededPass c ins l acc := by
+  intro l
+  induction l with
+  | nil => intro acc x h; exact h
+  | cons n rest ih =>
+    intro acc x h
+    simp only [neededPass]
+    split
+    · exact ih _ x (by simp [h])
+    · exact ih _ x h
+
+theorem outs_needed (c : ECfg V) (ins outs : List Node) (o : Node) (ho : o ∈ outs) : o ∈ needed c ins outs :=
+  neededPass_mono c ins _ outs o ho
+
+/-- **C19** (model level): the composed table — inputs turned into holders of the supplied values,
+    restricted to what the outputs need — returns for every output exactly what the original
+    pipeline computes "if the input nodes had produced these values".  The closure condition is
+    decidable and is checked by the driver on every composed table it evaluates. -/
+theorem C19_compose_computes_outputs (c : ECfg V) (ins outs : List Node) (vals : List V)
+    (hcl : isClosedB (withInputs c ins vals) (fun n => (needed c ins outs).contains n) = true)
+    (o : Node) (ho : o ∈ outs) :
+    den (composeCfg c ins outs vals) o = den (withInputs c ins vals) o := by
+  have := den_restrict (withInputs c ins vals) (fun n => (needed c ins outs).contains n) hcl o
+    (Or.inr (by simpa using outs_needed c ins outs o ho))
+  simpa [composeCfg, restrict] using this
+
+/-- the original table is a value: composing is a pure function of it (nothing to prove about state) -/
+theorem C19_original_unchanged (c : ECfg V) (ins outs : List Node) (vals : List V) :
+    (composeCfg c ins outs vals).recOf = c.recOf ∧ (composeCfg c ins outs vals).interp = c.interp :=
+  ⟨rfl, rfl⟩
+
+end VM
